@@ -253,3 +253,16 @@ Definition hl_accept (l : list hconn) : outcome iokind ((bool * bool) * addr) * 
 Definition st_write (st : bool * bool) : outcome unit unit := if fst st then Ok tt else Err tt.
 Definition st_shutdown (st : bool * bool) : outcome unit unit := if snd st then Ok tt else Err tt.
 Definition iokind_is_wb (k : iokind) : bool := match k with WouldBlock => true | OtherIo => false end.
+
+(* rand's Bernoulli over a generator seen as the stream of its 64-bit outputs: the distribution is its
+   ratio (numerator, denominator); a sample takes the next output v and answers v < threshold, where the
+   threshold of n/100 is REFLECTED from the compiled rand crate (Gen/Tables.v bernoulli_threshold: found
+   by bisection with a generator that returns a chosen value; 2^64 = always true). An exhausted stream is
+   a panic value of the model only. *)
+Definition bern_threshold (dist : N * N) : N :=
+  if snd dist =? 100 then nth (N.to_nat (fst dist)) bernoulli_threshold 0 else 0.
+Definition bern_sample (dist : N * N) (prng : list N) : res (bool * list N) :=
+  match prng with
+  | v :: r => Ok (v <? bern_threshold dist, r)
+  | [] => Panic site_fuel
+  end.
